@@ -223,6 +223,15 @@ func (ex *Exec) loopMods(li *loopInfo) (cells map[*ssa.Alloc]bool, heaps map[str
 						}
 						continue
 					}
+					for _, a := range c.Args {
+						// an interior pointer passed to a callee: the callee may store through it
+						switch a.(type) {
+						case *ssa.FieldAddr, *ssa.IndexAddr:
+							for _, h := range heapOfAddr(a) {
+								heaps[h] = true
+							}
+						}
+					}
 					if hs, ok := ex.monitorCallHeaps(c); ok {
 						for _, h := range hs {
 							heaps[h] = true
@@ -328,6 +337,10 @@ func (ex *Exec) staticAssignHeaps(fc *FuncContract, callee *ssa.Function, c *ssa
 			if v, ok := obj.(*types.Var); ok {
 				return v.Type()
 			}
+		case *CTypeAssert:
+			if pkg != nil {
+				return (&Env{ex: ex, pkg: pkg, vars: map[string]Val{}, where: "assigns of " + fc.Key}).resolveType(x.Type)
+			}
 		case *CCall:
 			if id, ok := x.Fun.(*CIdent); ok && id.Name == "old" && len(x.Args) == 1 {
 				return typeOf(x.Args[0])
@@ -344,6 +357,8 @@ func (ex *Exec) staticAssignHeaps(fc *FuncContract, callee *ssa.Function, c *ssa
 		return nil
 	}
 	switch x := e.(type) {
+	case *CCond:
+		return ex.staticAssignHeaps(fc, callee, c, x.A) // "cond ? target : nothing"
 	case *CIdent:
 		if x.Name == "nothing" {
 			return nil, false
@@ -380,6 +395,22 @@ func (ex *Exec) staticAssignHeaps(fc *FuncContract, callee *ssa.Function, c *ssa
 			if bt := typeOf(x.Args[0]); bt != nil {
 				if sl, ok := bt.Underlying().(*types.Slice); ok {
 					return []string{ex.regElem(sl.Elem())}, false
+				}
+			}
+		}
+		if id, ok := x.Fun.(*CIdent); ok && id.Name == "allof" && pkg != nil {
+			if sel, ok := x.Args[0].(*CSel); ok {
+				t := (&Env{ex: ex, pkg: pkg, vars: map[string]Val{}, where: "assigns of " + fc.Key}).resolveType(sel.X.String())
+				if obj, path, _ := lookupField(types.NewPointer(t), pkg, sel.Name); obj != nil && len(path) == 1 {
+					return []string{ex.regField(t, path[0])}, false
+				}
+			}
+		}
+		if id, ok := x.Fun.(*CIdent); ok && id.Name == "mapof" {
+			if bt := typeOf(x.Args[0]); bt != nil {
+				if mt, ok := bt.Underlying().(*types.Map); ok {
+					dn, vn := ex.regMap(mt)
+					return []string{dn, vn}, false
 				}
 			}
 		}
